@@ -12,10 +12,14 @@ def build(P):
     T.externals(P.reg)
     P.verify(T.ED + "EventDispatcher.dispatch", T.dispatch_contract(), tags=("C04",))
     P.verify(T.ED + "EventDispatcher.publish", T.publish_contract(), tags=("C04",))
+    for c in (D.schedule_orphaned_response_handler_contract(), D.handle_orphaned_responses_contract()):
+        P.verify(c.key, c, tags=("C04",), timeout=30)
     P.explanation = ("What contracts carry of the crash argument: a redelivered task event does not send its request again but "
                      "re-registers the timeout (and pending request) under the same correlation id = the event's message id, which "
                      "the dispatcher hands to notify together with the redelivered flag; a redelivered child launch is not published "
-                     "again; every published event gets a fresh message id. With C03 (publish before acknowledge) and the broker "
+                     "again; every published event gets a fresh message id; a reply parked in orphaned_responses keeps a sweep scheduled (one at a time, "
+                     "re-armed on return for as long as something is parked) that hands it to the reply path once its task is pending again. With C03 (publish before acknowledge) and the broker "
                      "assumption A3 this is the no-loss / no-resend argument; the crash-point quantifier itself is not decided.")
     P.not_decided = ["outcome preservation across a crash, termination after restart, repeated crashes (crash-point quantifier)",
-                     "orphaned replies (handle_orphaned_responses) and lazy re-creation of join state are not under contract"]
+                     "lazy re-creation of join state is not under contract; that the parked reply is matched once the task is pending "
+                     "rests on the loop body of handle_orphaned_responses, of which only the frame is used"]
